@@ -56,6 +56,9 @@ CLAIMED = {
     "C19": ("writer/reader table agreement: dataclass fields = INSERT columns = bound parameters = converter keywords ⊆ DDL columns; codec pairing per column; UPDATE column set; ORDER BY of task reads; message registry and serialiser agreement",
             "Decides the structural part of round-trip fidelity for workflows, stages, tasks and queue messages: no field is dropped or crossed between write and read, each column is decoded with the inverse of its encoder, task order is preserved by ORDER BY id, both message serialisers agree and every message type is registered. Does not decide value-level JSON fidelity.",
             "Trusted: listed exemptions in sa/rules/c19.py (transient fields).", "5/C19"),
+    "C20": ("whitelist + escape analysis of the expression evaluator (may-raise table per operation vs. enclosing handlers), side-effect scan, caller discipline scan, structural rules on topological_sort / validate_stage_graph / Workflow.create",
+            "Decides: the evaluator dispatches on a closed whitelist of side-effect-free node kinds with default deny and reaches no reflective or code-executing call; its operator tables hold reviewed operators; it writes nothing; every operation that can raise on some input is enclosed by a handler converting to ExpressionError (incl. parser and recursion limits); callers catch ExpressionError without re-raising; topological_sort emits a stage only after its requisites and raises when stuck; validation order and Workflow.create calling it. Does not decide completeness of validation or exotic context values.",
+            "Trusted: reviewed OP_RAISES table in sa/rules/c20.py; CPython ast.parse exception set.", "5/C20"),
 }
 
 checks = []
